@@ -88,21 +88,21 @@ func writeEvidence(verif, prop, tier string, seed int, eng *Engine, units []*FnV
 	ev := map[string]interface{}{
 		"property_id": prop, "tier": tier, "seed": seed, "level": "proof",
 		"coverage": map[string]interface{}{
-			"obligations":             nonCover - nKnown,
-			"discharged":              nDis,
-			"finding_obligations":     nKnown,
-			"vacuity_covers_ok":       nCover,
-			"checker_cmd":             fmt.Sprintf("/verif/bin/govc check -prop %s -tier %s (z3-new 5.1.0 -> z3 4.8.12 -> cvc5 1.0.x per obligation, %ds each)", prop, tier, timeout),
-			"trusted_base":            tb,
+			"obligations":              nonCover - nKnown,
+			"discharged":               nDis,
+			"finding_obligations":      nKnown,
+			"vacuity_covers_ok":        nCover,
+			"checker_cmd":              fmt.Sprintf("/verif/bin/govc check -prop %s -tier %s (z3-new 5.1.0 -> z3 4.8.12 -> cvc5 1.0.x per obligation, %ds each)", prop, tier, timeout),
+			"trusted_base":             tb,
 			"functions_under_contract": fns,
-			"inlined_helpers":         inl,
-			"discharged_by_backend":   byBackend,
-			"solver_time_s":           round3(solverTime),
-			"translation_errors":      unitErrs,
-			"obligation_list":         reps,
-			"samples":                 samples,
-			"contract_files":          eng.cs.Files,
-			"integers":                "mathematical Int; unsigned arithmetic and conversions wrap mod 2^w; signed overflow not modelled",
+			"inlined_helpers":          inl,
+			"discharged_by_backend":    byBackend,
+			"solver_time_s":            round3(solverTime),
+			"translation_errors":       unitErrs,
+			"obligation_list":          reps,
+			"samples":                  samples,
+			"contract_files":           eng.cs.Files,
+			"integers":                 "mathematical Int; unsigned arithmetic and conversions wrap mod 2^w; signed overflow not modelled",
 		},
 		"assumptions": assumptions,
 		"wall_s":      round3(wall),
